@@ -27,6 +27,7 @@ def cfgOfArgs (kv : List (String × String)) : Cfg :=
     arekAllFalse := boolOf (arg kv "arekAllFalse"),
     countMissingOk := boolOf (arg kv "countMissingOk"),
     setErrSingle := boolOf (arg kv "setErrSingle"),
+    fltCondDirect := boolOf (arg kv "fltCondDirect"),
     saveReleasesImmediate := boolOf (arg kv "saveReleasesImmediate"),
     encoding := if arg kv "encoding" == "typeTagged" then .typeTagged else .gobOmitZero }
 
@@ -183,8 +184,9 @@ def showIntTy : IntTy → String
 def showVal : Val → String
   | .none => "void"
   | .int t n => s!"{showIntTy t}:{n}"
-  | .flt .f32 b => "f32:" ++ hexPad 8 b
-  | .flt .f64 b => "f64:" ++ hexPad 16 b
+  -- every NaN is shown as the canonical quiet NaN (which NaN an operation yields is the processor's choice)
+  | .flt .f32 b => "f32:" ++ hexPad 8 (if (b / 0x800000) % 0x100 == 0xff && b % 0x800000 != 0 then 0x7fc00000 else b)
+  | .flt .f64 b => "f64:" ++ hexPad 16 (if (b / 0x10000000000000) % 0x800 == 0x7ff && b % 0x10000000000000 != 0 then 0x7ff8000000000000 else b)
   | .str h => "str:" ++ h
   | .bool b => if b then "bool:1" else "bool:0"
   | .bytes h => "bytes:" ++ h
@@ -219,6 +221,7 @@ def showResp (ck : Clock) (verb : String) : Resp → String
 
 def tagId : Tag → String
   | .stickyFlags => "sticky-changed-flags"
+  | .nanCond => "nan-condition-passes"
   | .metaNoCompare => "meta-always-changed"
   | .tsSubSecond => "preepoch-subsecond-accepted"
   | .voidNoClear => "set-void-keeps-value"
@@ -240,7 +243,7 @@ def tagPrio : Tag → Nat
   | .u32delDeadlock => 0 | .u32delNonSlice => 1 | .hiddenSlice => 2 | .voidNoClear => 3 | .sliceMerge => 4
   | .incFailTrace => 5 | .inflightReuse => 6 | .tsSubSecond => 7 | .metaNoCompare => 8 | .setErrDup => 9
   | .arekPrecondition => 10 | .countPrecondition => 11 | .zeroLikeDropped => 12 | .emptyLive => 13 | .resurrected => 0
-  | .stickyFlags => 14
+  | .stickyFlags => 14 | .nanCond => 4
 
 def pickTag (tags : List Tag) : Option Tag :=
   tags.foldl (fun best t => match best with
